@@ -137,7 +137,15 @@ pub fn run(args: &Args, rep: &mut Report) {
                     (vec!["-p".into(), pre], m)
                 } else {
                     let l = rng.usize(1, 5);
-                    let req: Vec<String> = (0..l).map(|_| rng.pick(&names).clone()).collect();
+                    let mut req: Vec<String> = (0..l).map(|_| rng.pick(&names).clone()).collect();
+                    if r % 4 == 0 {
+                        // the same name twice in a row, and again later
+                        let again = req[0].clone();
+                        req.insert(0, again.clone());
+                        req.push(rng.pick(&names).clone());
+                        req.push(again);
+                        rep.count("getset_with_a_name_repeated_back_to_back", 1);
+                    }
                     (req.clone(), req)
                 };
                 let outf = format!("{}/out{}.fa", cdir, r);
@@ -222,7 +230,49 @@ pub fn run(args: &Args, rep: &mut Report) {
             vec!["getrange".into(), arch.clone(), "-s".into(), "nosuch".into(), "-c".into(), "x".into(), "--start".into(), "0".into()],
             vec!["create".into(), "-o".into(), format!("{}/x.agc", cdir), format!("{}/no-such-input.fa", cdir)],
             vec!["create".into(), "-o".into(), format!("{}/no-such-dir/x.agc", cdir), inputs[0].clone()],
+            // the output cannot be written (every write to /dev/full fails with ENOSPC)
+            vec!["getset".into(), arch.clone(), first.clone(), "-o".into(), "/dev/full".into()],
+            vec!["getset".into(), arch.clone(), "-o".into(), "/dev/full".into(), first.clone(), last.clone()],
         ];
+        // an input that cannot be read to its end (gzip stream cut off), in every position
+        {
+            let victim = inputs.last().unwrap().clone();
+            let text = std::fs::read(&victim).unwrap_or_default();
+            let gz = cli::gzip_members(&text, &[], false);
+            let cut = format!("{}/cut{}.fa.gz", cdir, i);
+            std::fs::write(&cut, &gz[..gz.len() * 3 / 5]).unwrap();
+            let mut orders: Vec<Vec<String>> = Vec::new();
+            if inputs.len() >= 2 {
+                let mut mid = inputs.clone();
+                let l = mid.len();
+                mid[l - 1] = cut.clone(); // last position
+                orders.push(mid);
+                if inputs.len() >= 3 {
+                    // middle position: the other inputs keep their order, the cut file comes second
+                    let mut v: Vec<String> = inputs[..l - 1].to_vec();
+                    v.insert(1, cut.clone());
+                    orders.push(v);
+                }
+            } else {
+                orders.push(vec![cut.clone()]);
+            }
+            for ord in orders {
+                let out = format!("{}/cutout.agc", cdir);
+                let mut cmd = cli::create_cmd(&ragc, &out, &ord, &p);
+                let o = cli::run(&mut cmd, cli::TIMEOUT);
+                rep.evaluations += 1;
+                rep.count("failing_invocations", 1);
+                rep.count("creates_with_an_unreadable_input", 1);
+                let pos = ord.iter().position(|x| *x == cut).unwrap_or(0);
+                *exit_codes.entry(format!("create with a cut-off .gz input (must fail) -> {:?}", o.code)).or_insert(0) += 1;
+                if o.timed_out {
+                    rep.inconclusive(format!("case {}: create with a cut-off input hit the wall-clock watchdog", i));
+                } else if o.ok() {
+                    viol(rep, args, i, &format!("exit: create exited 0 although input {} of {} is a gzip file that ends in the middle of its stream", pos + 1, ord.len()), &["create".into(), format!("<cut-off .fa.gz as input {} of {}>", pos + 1, ord.len())], &p, &set);
+                }
+                let _ = std::fs::remove_file(&out);
+            }
+        }
         for argv in fails {
             if !thorough && rng.chance(1, 2) {
                 continue;
